@@ -1,4 +1,5 @@
 import TxV.Proofs.BasicFifo
+import TxV.Proofs.BufferedFifo
 /-!
 # C14 — FIFO and BasicFifo behave as bounded queues
 
@@ -176,6 +177,102 @@ example : (step 2 (after 2 [⟨some 5, false, false, false⟩]) ⟨some 6, false
 
 end TxV.BasicFifo
 
+/-! ### `connectors.FIFO(…, fifo_type=SyncFIFOBuffered)`
+
+Model: `Model/BufferedFifo.lean` (inner queue of depth − 1 feeding an output register; readiness
+is the wrapped FIFO's own `w_rdy`/`r_rdy`).  The data clauses of C14 hold in full; of the
+readiness clause only "ready ⇒ possible" and "at most one cycle late" hold — the "iff" does
+not (last `example`; recorded as a finding, it is the behaviour of the unchanged code). -/
+namespace TxV.BufferedFifo
+open TxV.QueueUtil
+
+def after (d : Nat) (is : List In) : State := (run d init is).1
+def events (d : Nat) (is : List In) : List Ev := (run d init is).2.map ev
+/-- stored elements (oldest first: output register, then inner memory) after a history from reset -/
+def stored (d : Nat) (is : List In) : List Nat := abs (after d is)
+
+theorem inv_after (d : Nat) (is : List In) : Inv d (after d is) := inv_run d is init (inv_init d)
+
+-- OBLIGATION c14_buffered_data : FIFO over SyncFIFOBuffered refines the abstract queue on accepted calls (every depth, every reachable state): an executed read returns and removes the oldest stored element, an executed write appends its argument, nothing else changes the stored sequence, which never exceeds depth
+theorem c14_buffered_data (d : Nat) (is : List In) (i : In) :
+    let o := (step d (after d is) i).2
+    stored d (is ++ [i]) = (if o.rd.isSome then (stored d is).tail else stored d is) ++ o.wr.toList ∧
+    (∀ v, o.rd = some v → (stored d is).head? = some v) ∧
+    (stored d is).length ≤ d := by
+  have hinv := inv_after d is
+  obtain ⟨_, h2, h3⟩ := step_data hinv i
+  have e : after d (is ++ [i]) = (step d (after d is) i).1 := by
+    simp [after, run, runWith_append, runWith]
+  exact ⟨by unfold stored; rw [e]; exact h2, h3, abs_length_le hinv⟩
+
+-- OBLIGATION c14_buffered_order : FIFO over SyncFIFOBuffered, every depth, every history: (values returned by reads) ++ (elements still stored) = (values written): no loss, no duplication, write order
+theorem c14_buffered_order (d : Nat) (is : List In) :
+    (hist (events d is)).1 ++ stored d is = (hist (events d is)).2 :=
+  hist_run d is init ([], []) (inv_init d) (by simp [abs_init])
+
+-- OBLIGATION c14_buffered_read_value : FIFO over SyncFIFOBuffered: an executed read returns the oldest written element not yet delivered
+theorem c14_buffered_read_value (d : Nat) (is : List In) (i : In) (v : Nat)
+    (h : (step d (after d is) i).2.rd = some v) :
+    (hist (events d is)).2[(hist (events d is)).1.length]? = some v := by
+  rw [first_undelivered (c14_buffered_order d is)]
+  exact (c14_buffered_data d is i).2.1 v h
+
+-- OBLIGATION c14_buffered_ready_partial : readiness of FIFO over SyncFIFOBuffered, WEAKER than the property's "iff" (which the unchanged code does not meet, see the example below): methods execute iff attempted and ready; read ready ⇒ non-empty; write ready ⇒ not full; and readiness is at most one cycle late: non-empty but read not ready ⇒ read ready in the next cycle, not full but write not ready ⇒ write ready in the next cycle
+theorem c14_buffered_ready_partial (d : Nat) (is : List In) (i j : In) :
+    let o := (step d (after d is) i).2
+    let o' := (step d (after d (is ++ [i])) j).2
+    (o.rd.isSome = true ↔ (i.r = true ∧ o.rrdy = true)) ∧
+    (o.wr = if o.wrdy = true then i.w else none) ∧
+    (o.rrdy = true → stored d is ≠ []) ∧
+    (o.wrdy = true → (stored d is).length < d) ∧
+    (stored d is ≠ [] → o.rrdy = false → o'.rrdy = true) ∧
+    ((stored d is).length < d → o.wrdy = false → o'.wrdy = true) := by
+  have hinv := inv_after d is
+  have e : after d (is ++ [i]) = (step d (after d is) i).1 := by
+    simp [after, run, runWith_append, runWith]
+  rw [e]
+  unfold stored
+  generalize after d is = s at *
+  obtain ⟨inner, rv, rd⟩ := s
+  obtain ⟨w, r⟩ := i
+  have hi := hinv.hi
+  simp only at hi
+  by_cases hd0 : d = 0
+  · have := hinv.h0 hd0
+    simp only at this
+    subst hd0; subst this
+    have hin : inner = [] := by cases inner <;> simp_all
+    subst hin
+    simp [step, abs]
+  · by_cases hd1 : d = 1
+    · subst hd1
+      have hin : inner = [] := by cases inner <;> simp_all
+      subst hin
+      cases rv <;> cases w <;> cases r <;> simp [step, abs]
+    · have hne : ¬ d - 1 = 0 := by omega
+      simp only [step, hd0, hd1, if_false]
+      by_cases hf : inner.length = d - 1
+      · cases inner <;> cases rv <;> cases r <;> simp_all [abs] <;> omega
+      · have : inner.length < d - 1 := by omega
+        cases inner <;> cases rv <;> cases r <;> cases w <;> simp_all [abs] <;> omega
+
+/-- non-vacuity: depth 3, writes and reads interleaved; the three values come out once, in order -/
+example :
+    let is : List In := [⟨some 1, true⟩, ⟨some 2, true⟩, ⟨some 3, true⟩, ⟨none, true⟩, ⟨none, true⟩, ⟨none, true⟩]
+    (run 3 init is).2.map (fun o => (o.wr, o.rd)) =
+      [(some 1, none), (some 2, none), (some 3, some 1), (none, some 2), (none, some 3), (none, none)] ∧
+    hist (events 3 is) = ([1, 2, 3], [1, 2, 3]) ∧ stored 3 is = [] := by decide
+
+/-- the readiness "iff" of the property FAILS on this configuration class (unchanged code, finding
+    F-c14-1): depth 2, after one write the queue holds one element, yet neither `read` (output
+    register still empty) nor `write` (inner memory of depth 1 full) is ready -/
+example :
+    stored 2 [⟨some 1, false⟩] = [1] ∧
+    (step 2 (after 2 [⟨some 1, false⟩]) ⟨none, true⟩).2.rrdy = false ∧
+    (step 2 (after 2 [⟨some 1, false⟩]) ⟨none, true⟩).2.wrdy = false := by decide
+
+end TxV.BufferedFifo
+
 #print axioms TxV.BasicFifo.c14_refines
 #print axioms TxV.BasicFifo.c14_order
 #print axioms TxV.BasicFifo.c14_read_value
@@ -187,3 +284,7 @@ end TxV.BasicFifo
 #print axioms TxV.BasicFifo.c14_fifo_order
 #print axioms TxV.BasicFifo.c14_fifo_read_value
 #print axioms TxV.BasicFifo.c14_fifo_ready
+#print axioms TxV.BufferedFifo.c14_buffered_data
+#print axioms TxV.BufferedFifo.c14_buffered_order
+#print axioms TxV.BufferedFifo.c14_buffered_read_value
+#print axioms TxV.BufferedFifo.c14_buffered_ready_partial
